@@ -123,7 +123,39 @@ fn mutate_tokens(r: &mut Rng, toks: &mut Vec<String>, vocab: &[String], n: usize
             continue;
         }
         let i = r.below(toks.len());
-        match r.below(9) {
+        match r.below(12) {
+            9 => {
+                // a character no token can start with, ASCII or not (the error paths print a position marker)
+                let odd = ["\u{e9}", "\u{2192}", "B\u{e4}r", "\u{1F600}", "@", "$", "`", "\u{3b1}\u{3b2}", "\u{a0}", "~", "\u{200b}"];
+                let t = r.pick(&odd).to_string();
+                if r.chance(50) {
+                    toks.insert(i, t);
+                } else {
+                    toks[i] = format!("{}{}", toks[i], t);
+                }
+            }
+            10 | 11 => {
+                // generic arguments on a name that follows `::` or precedes `=` (associated types), or after any name
+                let names: Vec<String> = toks.iter().filter(|t| t.chars().next().map_or(false, |c| c.is_alphabetic() || c == '\'') || t.chars().all(|c| c.is_ascii_digit())).cloned().collect();
+                let sites: Vec<usize> = (0..toks.len())
+                    .filter(|&j| toks[j].chars().next().map_or(false, |c| c.is_alphabetic()) && ((j > 0 && toks[j - 1] == "::") || toks.get(j + 1).map_or(false, |n| n == "=")))
+                    .collect();
+                let at = if !sites.is_empty() && r.chance(80) { *r.pick(&sites) } else { i };
+                if !names.is_empty() {
+                    let n = 1 + r.below(3);
+                    let mut ins = vec!["<".to_string()];
+                    for k in 0..n {
+                        if k > 0 {
+                            ins.push(",".into());
+                        }
+                        ins.push(r.pick(&names).clone());
+                    }
+                    ins.push(">".into());
+                    for (k, t) in ins.into_iter().enumerate() {
+                        toks.insert((at + 1 + k).min(toks.len()), t);
+                    }
+                }
+            }
             0 => {
                 toks.remove(i);
             }
@@ -192,6 +224,13 @@ pub fn run(ctx: &Ctx, out: &mut CaseOut) {
                 let s: String = (0..n).map(|_| *r.pick(&alphabet)).collect();
                 let (st, p) = pipeline(&s);
                 report(out, "random-characters", &s, st, p);
+                // the same kind of text as a goal
+                if let Ok(l) = load("struct A { } trait Foo { }", slg(), false) {
+                    let n = r.below(40);
+                    let g: String = (0..n).map(|_| *r.pick(&alphabet)).collect();
+                    let (st, p) = goal_pipeline(&l, &g);
+                    report(out, "random-characters-goal", &g, st, p);
+                }
             }
             1 => {
                 // random token sequences over the grammar's vocabulary
